@@ -447,6 +447,13 @@ def ctorFill (cfg : Cfg) (c a : Nat) (checked : Bool) (srcs : List (Src α)) : M
     uninitGen cfg v.inl 0 0 srcs >>= fun _ =>
     setSize c srcs.length
 
+/-- range constructor for single-pass iterators: delegates to the default constructor, then appends element by element;
+    an exception leaves through the destructor of the (fully constructed) base sub-object -/
+def ctorInput (cfg : Cfg) (c a sid : Nat) (vs : List α) : M α Unit :=
+  ctorDefault c a >>= fun _ =>
+  tryCatch (appendRangeInput cfg c false sid 0 vs >>= fun _ => pure ())
+    (fun e => wipe cfg c >>= fun _ => throwE e)
+
 /-- copy construction from container `o` with allocator `a` (hpp:3258) -/
 def ctorCopy (cfg : Cfg) (c o a : Nat) : M α Unit :=
   getV o >>= fun ov => ctorFill cfg c a ctorCopyChecked (srcsCopy ov.data 0 ov.size)
